@@ -56,6 +56,42 @@ Proof.
   destruct Hin as [H|H]; [subst ch; discriminate|]. eapply IH; eauto.
 Qed.
 
+(* integer chunk size: the number of chunks is exactly what get_n_chunks announces, min(n, ceil(n / cs)) *)
+Lemma ceil_div_le : forall n cs, (1 <= cs)%nat -> ((n + cs - 1) / cs <= n)%nat.
+Proof.
+  intros n cs Hcs. destruct n as [|n].
+  - simpl. rewrite Nat.div_small; lia.
+  - apply Nat.div_le_upper_bound; [lia|]. nia.
+Qed.
+
+Lemma chunk_by_const_length : forall fuel (cs i : nat) (xs : list A),
+  (1 <= cs)%nat -> (length xs < fuel)%nat ->
+  length (chunk_by fuel (fun _ => Z.of_nat cs) i xs) = n_chunks_exact (length xs) cs.
+Proof.
+  unfold n_chunks_exact.
+  induction fuel as [|fuel IH]; intros cs i xs Hcs Hlen; [lia|].
+  rewrite Nat.min_r by (now apply ceil_div_le).
+  simpl.
+  replace (Z.to_nat (Z.max 1 (Z.of_nat cs))) with cs by lia.
+  destruct xs as [|x xs'].
+  - rewrite firstn_nil. simpl. rewrite Nat.div_small; lia.
+  - set (g := fun _ : nat => Z.of_nat cs).
+    assert (Ecs : exists cs', cs = S cs') by (destruct cs; [lia|eauto]).
+    destruct Ecs as [cs' Ecs].
+    assert (Hf : firstn cs (x :: xs') = x :: firstn cs' xs') by (rewrite Ecs; reflexivity).
+    assert (Hs : skipn cs (x :: xs') = skipn cs' xs') by (rewrite Ecs; reflexivity).
+    rewrite Hf, Hs. cbn [length].
+    fold g. unfold g. rewrite (IH cs (S i)) by (try lia; rewrite skipn_length; simpl in Hlen; lia).
+    rewrite Nat.min_r by (apply ceil_div_le; lia).
+    rewrite skipn_length. subst cs.
+    destruct (Nat.le_gt_cases (length xs') cs') as [Hle|Hgt].
+    + replace (length xs' - cs')%nat with 0%nat by lia.
+      replace ((0 + S cs' - 1) / S cs')%nat with 0%nat by (symmetry; apply Nat.div_small; lia).
+      apply Nat.div_unique with (r := length xs'); lia.
+    + replace (S (length xs') + S cs' - 1)%nat with ((length xs' - cs' + S cs' - 1) + 1 * S cs')%nat by lia.
+      rewrite Nat.div_add by lia. lia.
+Qed.
+
 (* no task is empty (a worker is never sent an empty array) *)
 Lemma chunk_loop_nonempty : forall fuel (q cur : Q) (xs : list A) ch,
   In ch (chunk_loop fuel q cur xs) -> ch <> [].
@@ -223,11 +259,11 @@ Variable pool : (list A -> list B) -> list (nat * list A) -> list (nat * list B)
 Hypothesis pool_delivers_each_result_once : forall g tasks,
   Permutation (pool g tasks) (map (fun t => (fst t, g (snd t))) tasks).
 
-(* ★ parallel_equals_serial *)
-Theorem parallel_equals_serial : forall (n_jobs : positive) (xs : list A),
-  parmap f pool n_jobs xs = serial f xs.
+(* parallel = serial for mpire's default chunking with the exact carry (the call before fix 14cf9ed) *)
+Theorem parallel_equals_serial_default : forall (n_jobs : positive) (xs : list A),
+  parmap_default f pool n_jobs xs = serial f xs.
 Proof.
-  intros n_jobs xs. unfold parmap, serial.
+  intros n_jobs xs. unfold parmap_default, serial.
   rewrite (collect_any_order (chunk_tasks xs (4 * n_jobs))).
   - now rewrite chunks_concat.
   - apply pool_delivers_each_result_once.
@@ -260,6 +296,20 @@ Proof.
   destruct (Nat.eqb predicted (length (chunk_tasks_by ceil_at xs))) eqn:E.
   - apply Nat.eqb_eq in E. split; [discriminate|intro; contradiction].
   - apply Nat.eqb_neq in E. split; auto.
+Qed.
+
+(* ★ parallel_equals_serial for compute_phase_diagram as it is now (integer chunk size): for every n_jobs >= 1
+   the call does not raise and returns the serial result *)
+Theorem parallel_equals_serial : forall (n_jobs : positive) (xs : list A),
+  parmap f pool n_jobs xs = Some (serial f xs).
+Proof.
+  intros n_jobs xs. unfold parmap.
+  set (cs := koala_chunk_size (length xs) n_jobs).
+  assert (Hcs : (1 <= cs)%nat) by (unfold cs, koala_chunk_size; lia).
+  destruct (parmap_checked f pool (fun _ => Z.of_nat cs) (n_chunks_exact (length xs) cs) xs) as [r|] eqn:E.
+  - f_equal. eapply parmap_checked_returns_serial; eauto.
+  - exfalso. apply parmap_checked_raises_iff in E. apply E.
+    unfold chunk_tasks_by. rewrite chunk_by_const_length by lia. reflexivity.
 Qed.
 
 End ParallelSerial.
